@@ -504,6 +504,10 @@ func (w *Writer) Write(v interface{}) *Writer {
 //   - 指针：自动解引用，nil 指针会返回错误
 func (w *Writer) writeReflect(v interface{}) error {
 	rv := reflect.ValueOf(v)
+	if !rv.IsValid() {
+		// nil 接口值：无类型信息可写（否则会在 Write 与 writeReflect 之间无限递归直至栈溢出）
+		return fmt.Errorf("cannot write nil value")
+	}
 
 	// 处理指针类型，自动解引用
 	for rv.Kind() == reflect.Ptr {
@@ -541,9 +545,43 @@ func (w *Writer) writeReflect(v interface{}) error {
 		return nil
 
 	default:
-		w.Write(v)
-		return nil
+		// 解引用后的基础类型（含命名类型、多级指针）按 Kind 写入；不支持的 Kind 返回错误。
+		// 不能再回到 Write(v)：Write 的类型分支无法匹配这些值，会与 writeReflect 无限互相递归直至栈溢出
+		return w.writeBasicKind(rv, v)
 	}
+}
+
+// writeBasicKind 按 reflect.Kind 写入基础类型的值，不支持的 Kind 返回错误
+func (w *Writer) writeBasicKind(rv reflect.Value, v interface{}) error {
+	switch rv.Kind() {
+	case reflect.Int8:
+		w.WriteInt8(int8(rv.Int()))
+	case reflect.Int16:
+		w.WriteInt16(int16(rv.Int()))
+	case reflect.Int32:
+		w.WriteInt32(int32(rv.Int()))
+	case reflect.Int64:
+		w.WriteInt64(rv.Int())
+	case reflect.Uint8:
+		w.WriteUint8(uint8(rv.Uint()))
+	case reflect.Uint16:
+		w.WriteUint16(uint16(rv.Uint()))
+	case reflect.Uint32:
+		w.WriteUint32(uint32(rv.Uint()))
+	case reflect.Uint64:
+		w.WriteUint64(rv.Uint())
+	case reflect.Float32:
+		w.WriteFloat32(float32(rv.Float()))
+	case reflect.Float64:
+		w.WriteFloat64(rv.Float())
+	case reflect.Bool:
+		w.WriteBool(rv.Bool())
+	case reflect.String:
+		w.WriteString(rv.String())
+	default:
+		return fmt.Errorf("unsupported type for writing: %T", v)
+	}
+	return w.err
 }
 
 // WriteFrom 一次性写入多个值
